@@ -134,7 +134,7 @@ def run(ctx):
     kinds_all = list(KIND_PALS)
     records = []
     for fr in frs:
-        for _ in range(1 if quick else 6):
+        for _ in range(1 if quick else 30):
             kinds = {}
             for c in fr["cols"]:
                 ok = [k for k in kinds_all if KIND_PALS[k].supports(fr["cell"][c])]
